@@ -40,7 +40,7 @@ p = os.path.join(V, 'DESIGN.md')
 s = open(p).read()
 if '## 14. Seeded-change trials' in s:
     i = s.index('## 14. Seeded-change trials')
-    j = s.index('## Changes\n')
+    j = s.index('## 15. Behaviour-preserving rewrites') if '## 15. Behaviour-preserving rewrites' in s else s.index('## Changes\n')
     s = s[:i] + text + s[j:]
 else:
     s = s.replace('## Changes\n', text + '## Changes\n', 1)
